@@ -344,6 +344,9 @@ fn depth_first_insertion_code_block<'eng: 'cfg, 'cfg>(
                 NodeConnection::NextStep(node_opt) => leaf_opt = node_opt,
                 NodeConnection::Return(node) => {
                     return_nodes.push(node);
+                    // Code after a return is unreachable. It must not be connected to the
+                    // node preceding the return, otherwise the spine is no longer a single path.
+                    leaf_opt = None;
                 }
             },
             Err(mut e) => errors.append(&mut e),
